@@ -32,7 +32,8 @@ def get_func_in_module(module: str, qualname: str) -> Callable[..., Any]:
     elif isinstance(func, property):
         if func.fget is not None:
             if (func.fset is None) and (func.fdel is None):
-                func = func.fget
+                # The getter may itself be a functools.wraps-style wrapper.
+                func = inspect.unwrap(func.fget)
             else:
                 raise InvalidTypeError(
                     f"Property {module}.{qualname} has setter or deleter."
